@@ -25,7 +25,12 @@ def cases(draw, tier, fast):
     bounds = coding.tier_bounds(tier)
     graph = draw(gens.arc_subsets(1, bounds["kmax"], {1: 2, 2: 4, 3: 4, 4: 2, 5: 1}))
     rng = random.Random(draw(st.integers(0, 2 ** 32 - 1)))
-    if fast:
+    if draw(st.sampled_from([False] * 24 + [True])):
+        # the observed lengths used in practice: 1,024..65,536 vertices, indices beyond 2^15, some dead vertices
+        k = draw(st.sampled_from([5, 6, 7, 8]))
+        palette = [15, 15, 5, 10, 3, 12, 6, 9, 1, 2, 4, 8, 0] if fast else [15, 15, 7, 11, 13, 14, 5, 10, 3, 12, 1, 2, 4, 8, 0]
+        graph = {"k": k, "rows": [rng.choice(palette) for _ in range(4 ** k)], "large_k": True}
+    elif fast:
         graph = dict(graph, rows=gens._fix_fast(graph["rows"], rng))
     n = 4 ** graph["k"]
     with_arcs = [v for v, r in enumerate(graph["rows"]) if r]
@@ -132,7 +137,8 @@ def evaluate(case):
     acgt = all(c in o.NUC and len(c) == 1 for c in text)
     check_ok = check is None or (len(check) > 0 and acgt and o.ref_vt(text, len(check)) == check)
     expected_accept = walk and check_ok
-    labels = ["fast" if fast else "normal", "check:" + case["check_kind"], "k=%d" % k]
+    labels = ["fast" if fast else "normal", "check:" + case["check_kind"], "k=%d" % k] + (
+        ["large_k"] if graph.get("large_k") else [])
     if not fast and case["extra"] < 0 and width < o.digits_value(digits).bit_length():
         labels.append("width_smaller_than_value")
     if walk:
@@ -184,7 +190,7 @@ def s_fast(tier):
 
 FLOORS = {"foreign_at_deg1": 60, "foreign_at_branching": 60, "accept": 200, "reject:branching": 100, "reject:deg1": 60, "reject:dead_vertex": 40,
           "reject:check_only": 60, "reject:foreign_char": 60, "reject_pos>0": 150, "check:empty": 150,
-          "width_smaller_than_value": 150, "foreign_only_at_end": 100, "check_len>=33": 250}
+          "width_smaller_than_value": 150, "foreign_only_at_end": 100, "check_len>=33": 250, "large_k": 120}
 
 SUBCHECKS = [
     SubCheck("normal", evaluate, strategy=s_normal, examples=(5000, 50000), shards=(16, 16), floors=FLOORS, rule=RULE),
